@@ -28,11 +28,14 @@ impl Controller for StaticResourceController {
         let boxed_url_components = URL::parse(&url);
         if boxed_url_components.is_err() {
             let message = boxed_url_components.as_ref().err().unwrap().to_string();
-            // unfallable
-            println!("unexpected error, {}", message);
+            println!("unable to parse request uri, {}", message);
+            return false
         }
 
         let components = boxed_url_components.unwrap();
+        if !URL::is_path_inside_root(&components.path) {
+            return false
+        }
 
         let os_specific_separator : String = FileExt::get_path_separator();
         let os_specific_path = &components.path.replace(SYMBOL.slash, os_specific_separator.as_str());
@@ -130,21 +133,19 @@ impl Controller for StaticResourceController {
                 let url = url_array.join(SYMBOL.empty_string);
 
                 let boxed_url_components = URL::parse(&url);
-                if boxed_url_components.is_err() {
-                    let message = boxed_url_components.as_ref().err().unwrap().to_string();
-                    // unfallable
-                    println!("unexpected error, {}", message);
-                }
+                if boxed_url_components.is_ok() {
+                    let components = boxed_url_components.unwrap();
 
-                let components = boxed_url_components.unwrap();
+                    if URL::is_path_inside_root(&components.path) {
+                        let static_filepath = [working_directory, components.path.as_str()].join(SYMBOL.empty_string);
+                        let boxed_modified_date_time = FileExt::file_modified_utc(&static_filepath);
 
-                let static_filepath = [working_directory, components.path.as_str()].join(SYMBOL.empty_string);
-                let boxed_modified_date_time = FileExt::file_modified_utc(&static_filepath);
-
-                if boxed_modified_date_time.is_ok() {
-                    let modified_date_time = boxed_modified_date_time.unwrap();
-                    let last_modified_unix_nanos = Header{ name: Header::_LAST_MODIFIED_UNIX_EPOCH_NANOS.to_string(), value: modified_date_time.to_string() };
-                    response.headers.push(last_modified_unix_nanos);
+                        if boxed_modified_date_time.is_ok() {
+                            let modified_date_time = boxed_modified_date_time.unwrap();
+                            let last_modified_unix_nanos = Header{ name: Header::_LAST_MODIFIED_UNIX_EPOCH_NANOS.to_string(), value: modified_date_time.to_string() };
+                            response.headers.push(last_modified_unix_nanos);
+                        }
+                    }
                 }
 
                 response.status_code = *status_code_reason_phrase.status_code;
@@ -178,6 +179,10 @@ impl Controller for StaticResourceController {
 impl StaticResourceController {
 
     pub fn is_matching_request(request: &Request) -> bool {
+        if !URL::is_path_inside_root(&request.request_uri) {
+            return false
+        }
+
         let boxed_static_filepath = FileExt::get_static_filepath(&request.request_uri);
         if boxed_static_filepath.is_err() {
             return false
@@ -225,13 +230,15 @@ impl StaticResourceController {
 
                 let dir = env::current_dir().unwrap();
                 let working_directory = dir.as_path().to_str().unwrap();
-                let static_filepath = [working_directory, request.request_uri.as_str()].join(SYMBOL.empty_string);
-                let boxed_modified_date_time = FileExt::file_modified_utc(&static_filepath);
+                if URL::is_path_inside_root(&request.request_uri) {
+                    let static_filepath = [working_directory, request.request_uri.as_str()].join(SYMBOL.empty_string);
+                    let boxed_modified_date_time = FileExt::file_modified_utc(&static_filepath);
 
-                if boxed_modified_date_time.is_ok() {
-                    let modified_date_time = boxed_modified_date_time.unwrap();
-                    let last_modified_unix_nanos = Header{ name: Header::_LAST_MODIFIED_UNIX_EPOCH_NANOS.to_string(), value: modified_date_time.to_string() };
-                    response.headers.push(last_modified_unix_nanos);
+                    if boxed_modified_date_time.is_ok() {
+                        let modified_date_time = boxed_modified_date_time.unwrap();
+                        let last_modified_unix_nanos = Header{ name: Header::_LAST_MODIFIED_UNIX_EPOCH_NANOS.to_string(), value: modified_date_time.to_string() };
+                        response.headers.push(last_modified_unix_nanos);
+                    }
                 }
 
                 response.status_code = *status_code_reason_phrase.status_code;
@@ -269,12 +276,21 @@ impl StaticResourceController {
 
         let boxed_url_components = URL::parse(&url);
         if boxed_url_components.is_err() {
-            let message = boxed_url_components.as_ref().err().unwrap().to_string();
-            // unfallable
-            println!("unexpected error, {}", message);
+            let error = Error {
+                status_code_reason_phrase: STATUS_CODE_REASON_PHRASE.n400_bad_request,
+                message: boxed_url_components.err().unwrap()
+            };
+            return Err(error)
         }
 
         let components = boxed_url_components.unwrap();
+        if !URL::is_path_inside_root(&components.path) {
+            let error = Error {
+                status_code_reason_phrase: STATUS_CODE_REASON_PHRASE.n404_not_found,
+                message: "path is outside of the served directory".to_string()
+            };
+            return Err(error)
+        }
 
         let os_specific_separator : String = FileExt::get_path_separator();
         let os_specific_path = &components.path.replace(SYMBOL.slash, os_specific_separator.as_str());
